@@ -2,6 +2,7 @@ import GdVerif.Run.Reader
 import GdVerif.Run.Valve
 import GdVerif.Run.GenValve
 import GdVerif.Run.Unreal2
+import GdVerif.Run.GenUnreal2
 /-
   gdmodel: the model behind a line protocol.
     gdmodel run        : reads `<id> <entry> <args…>` lines on stdin, prints `<id> <outcome>`
@@ -36,6 +37,8 @@ def main (args : List String) : IO UInt32 := do
     | some seed, some n =>
       let lines := match suite with
         | "valve" => genValve seed n
+        | "unreal2" => genUnreal2 seed n
+        | "u2str" => genUnreal2Strings seed n
         | _ => []
       for l in lines do IO.println l
       return 0
